@@ -1100,12 +1100,14 @@ impl CollectUnicodes for Cmap12<'_> {
                 gid += 1;
             }
 
-            if gid as usize >= num_glyphs {
+            if gid as usize >= num_glyphs || start > end {
                 continue;
             }
 
-            if (gid + end - start) as usize >= num_glyphs {
-                end = UNICODE_MAX.min(start + num_glyphs as u32 - gid);
+            // font controlled values: compute in u64
+            if gid as u64 + (end - start) as u64 >= num_glyphs as u64 {
+                end =
+                    (UNICODE_MAX as u64).min(start as u64 + num_glyphs as u64 - gid as u64) as u32;
             }
             out.insert_range(start..=end);
         }
